@@ -480,6 +480,7 @@ type scenario struct {
 	pre      []int  // pieces written (correctly) before the threads start
 	threads  [][]wr // writer programs
 	observer bool
+	opener   bool // a thread opens a second Torrent on the same store (what every further Download request does)
 }
 
 func scenarios(thorough bool) []scenario {
@@ -494,6 +495,9 @@ func scenarios(thorough bool) []scenario {
 		// three payloads for one piece in flight (endgame): a writer turned away by
 		// a conflict must not disturb the reservation of the writer in progress
 		{name: "three-writers-same-piece", spec: b2, pre: nil, threads: [][]wr{{{0, "ok"}}, {{0, "flip"}}, {{0, "ok"}}}},
+		// a second request for the same blob opens its own Torrent while the last
+		// piece is being written and committed by the first
+		{name: "second-open-races-with-commit", spec: b2, pre: []int{0}, threads: [][]wr{{{1, "ok"}}}, opener: true},
 	}
 	if thorough {
 		sc = append(sc,
@@ -572,6 +576,17 @@ func harness(sc scenario, fine bool) *vrt.Harness {
 				}
 			})
 		}
+		var second *agentstorage.Torrent
+		if sc.opener {
+			vrt.GoNamed("open", func() {
+				t2, err := s.ta.CreateTorrent("ns", s.mi.Digest())
+				if err != nil {
+					addVio("second CreateTorrent on the same store failed: " + err.Error())
+					return
+				}
+				second = t2.(*agentstorage.Torrent)
+			})
+		}
 		if sc.observer {
 			vrt.GoNamed("obs", func() {
 				for k := 0; k < 2; k++ {
@@ -605,6 +620,20 @@ func harness(sc scenario, fine bool) *vrt.Harness {
 		}
 		if all && !s.t.Complete() {
 			addVio("every piece verified but torrent not complete")
+		}
+		if second != nil && second.Complete() {
+			// the second instance is a snapshot of the disk at its creation; whatever
+			// it reports complete must be the blob
+			r, err := s.cads.Cache().GetFileReader(s.mi.Digest().Hex())
+			if err != nil {
+				addVio("second torrent instance reports complete but the blob is not in the cache: " + err.Error())
+			} else {
+				b, _ := io.ReadAll(r)
+				r.Close()
+				if !bytes.Equal(b, s.spec.content) {
+					addVio(fmt.Sprintf("second torrent instance reports complete with wrong cached bytes %q", b))
+				}
+			}
 		}
 		obs := fmt.Sprintf("%v complete=%v", results, s.t.Complete())
 		sort.Strings(vio)
